@@ -3,4 +3,5 @@ import Petl.Proto
 import Petl.Fields
 import Petl.Sort
 import Petl.Join
+import Petl.HashJoin
 import Petl.Ops
